@@ -67,7 +67,8 @@ def gen_times(rng, kind, n):
         if model == "uniform":
             return [rng.uniform(-1000, 1000) for _ in range(n)]
         if model == "ints":
-            return [float(rng.randrange(0, 500)) for _ in range(n)]
+            # whole numbers, a third of them as Python ints: int and float are both "numbers"
+            return [(lambda v: int(v) if rng.random() < 0.33 else float(v))(rng.randrange(0, 500)) for _ in range(n)]
         if model == "clustered":
             c = [rng.uniform(0, 100) for _ in range(rng.choice([1, 2, 3]))]
             return [rng.choice(c) + rng.uniform(-1, 1) for _ in range(n)]
